@@ -282,12 +282,19 @@ int main(int argc, char** argv) {
             return s;
         };
         env.pool.push_back(rnd());
+        // 1: only arp differs from 0, 2: only ar differs - half of the time in ONE word only (a cache key that forgets a word)
         env.pool.push_back(env.pool[0]);
-        for (auto& x : env.pool[1].arp)
-            x = (u16)(x ^ (1u << g.below(16)) ^ g.bits(16));
+        if (g.chance(1, 2))
+            env.pool[1].arp[g.below(4)] ^= (u16)(1u << g.below(16));
+        else
+            for (auto& x : env.pool[1].arp)
+                x = (u16)(x ^ (1u << g.below(16)) ^ g.bits(16));
         env.pool.push_back(env.pool[0]);
-        for (auto& x : env.pool[2].ar)
-            x = (u16)(x ^ (1u << g.below(16)) ^ g.bits(16));
+        if (g.chance(1, 2))
+            env.pool[2].ar[g.below(2)] ^= (u16)(1u << g.below(16));
+        else
+            for (auto& x : env.pool[2].ar)
+                x = (u16)(x ^ (1u << g.below(16)) ^ g.bits(16));
         env.pool.push_back(rnd());
 
         std::vector<Call> seq;
